@@ -7,11 +7,15 @@
     toast <tentry-sexp>                 toAst (fromAst t) (spec side)    → ok <tentry-sexp> / <error>
     canon <tentry-sexp>                 Canon (fromAst t)                → ok true|false / <error>
     render <filenamehex> <tentry-sexp>  gram_check.App.render_rules      → ok <hex>
+    textrt <tentry-sexp>                print → gram lexer model → classes → engine → from_ast == rule set   → ok true|false / <error of from_ast>
+    reload <texthex>                    gram lexer model → classes → engine → from_ast on any text            → ok <rules> / lex-error / Errors.Syntax / <error>
+    gramclass <hex>                     regexp class of a token string under gram_rules() (GramClass)       → <nat>
     compile <sourcehex> <tokens>        parse with the built-in gram rules, entry `entry` → ok <tentry-sexp> / Errors.Syntax <hex> / <error>
 
   <pat> (space separated): `p:<exprhex>:<S|T>:<N|R|E>` | `( G:<and|or>:<rep> child … )`.
 -/
 import Tranp.Driver.Engine
+import Tranp.Model.TextRt
 
 namespace Tranp.Driver.Rules
 open Tranp Tranp.Engine Tranp.RulesAst Tranp.Driver Tranp.Driver.Engine
@@ -69,6 +73,25 @@ def step (st : Unit) : List String → Unit × String
     match Str.unhex fn, readTEntry sx with
     | some f, some t => (st, "ok " ++ Str.hex (renderRules f (astOfTEntry t)))
     | _, _ => (st, "bad-op")
+  | ["textrt", sx] =>
+    match readTEntry sx with
+    | some t => match fromAst t with
+      | .ok R => (st, "ok " ++ toString (TextRt.textRt R))
+      | .error e => (st, e.toString)
+    | none => (st, "bad-op")
+  | ["reload", h] =>
+    match Str.unhex h with
+    | some text =>
+      match TextRt.reload text with
+      | none => (st, "lex-error")
+      | some (.ok R) => (st, "ok " ++ showRules R)
+      | some (.error (.syntax _)) => (st, "Errors.Syntax")
+      | some (.error e) => (st, e.toString)
+    | none => (st, "bad-op")
+  | ["gramclass", h] =>
+    match Str.unhex h with
+    | some s => (st, toString (GramClass.gramClass s))
+    | none => (st, "bad-op")
   | ["compile", src, toks] =>
     match Str.unhex src, parseToks toks with
     | some source, some ts =>
